@@ -20,7 +20,7 @@
 (* TLC's counterexample for the code as found (F15).                       *)
 (***************************************************************************)
 EXTENDS Raster, Json
-CONSTANTS MaxN, BoxStride, CatStride, PairStride, SameStride, AttrStride, TripleStride, ValueStride, PointStride, ShapeFrom
+CONSTANTS MaxN, BoxStride, CatStride, PairStride, SameStride, AttrStride, TripleStride, ValueStride, PointStride, LightStride, ShapeFrom
 VARIABLES c, pc, k, rast, res
 vars == <<c, pc, k, rast, res>>
 
@@ -33,8 +33,17 @@ Holed == <<
   G("MultiPolygon", <<<<RectR(1, 1, 12, 9), RectR(3, 3, 9, 7)>>>>),
   G("Polygon", <<RectR(0, 0, 12, 8), RectR(2, 2, 10, 6)>>)
 >>
+\* rings written WITHOUT the closing point (legal: a ring needs >= 3 points): a four-cornered box, a frame whose hole is
+\* unclosed, a multipolygon with unclosed parts and hole -- every corner counts
+OpenR(s, l, e, h) == <<<<s, l>>, <<e, l>>, <<e, h>>, <<s, h>>>>
+Unclosed == <<
+  G("Polygon", <<OpenR(1, 1, 7, 7)>>),
+  G("Polygon", <<OpenR(0, 0, 12, 8), OpenR(2, 2, 10, 6)>>),
+  G("Polygon", <<<<<<0, 0>>, <<8, 0>>, <<8, 4>>, <<4, 8>>, <<0, 8>>>>>>),
+  G("MultiPolygon", <<<<OpenR(0, 0, 4, 8), OpenR(1, 2, 3, 6)>>, <<OpenR(5, 1, 11, 7)>>>>)
+>>
 NBase == Len(Catalogue(FMAXT))
-Cat == Catalogue(FMAXT) \o Holed
+Cat == Catalogue(FMAXT) \o Holed \o Unclosed
 Spacings == <<[t0 |-> 2, ts |-> 2, f0 |-> 0, fs |-> 2],
               [t0 |-> 0, ts |-> 3, f0 |-> 2, fs |-> 2],
               [t0 |-> 1, ts |-> 2, f0 |-> 3, fs |-> 3]>>
@@ -98,9 +107,9 @@ Descriptors ==
     UNION {LET bx == BoxD(td)  ct == CatD(td) IN
                {x \in bx : Hash(x) % BoxStride = 0}
          \cup  {x \in IvD(td) : Hash(x) % BoxStride = 0}
-         \cup  {x \in TsD(td) : Hash(x) % 2 = 0}
+         \cup  {x \in TsD(td) : Hash(x) % (2 * LightStride) = 0}
          \cup  {x \in ct : Hash(x) % CatStride = 0}
-         \cup  NoneD(td)
+         \cup  (IF (td.T + td.F + td.sp) % LightStride = 0 THEN NoneD(td) ELSE {})
          \cup  {x \in TsD(td) : x.a \in {Tpl(td).t0, Tpl(td).t0 + 1}}                  \* a time stamp in the FIRST time bin, always
          \cup  {x \in PtD(td) : Hash(x) % PointStride = 0}
          \cup  {x \in LnD(td) : Hash(x) % (3 * PointStride) = 0}
@@ -116,7 +125,7 @@ Descriptors ==
          \cup  {[x EXCEPT !.su = 1, !.g2 = j] : x \in {y \in bx : Hash(y) % (2 * SameStride) = 1}, j \in {1, 3}}
          \cup  {[x EXCEPT !.su = 1] : x \in {y \in ct : Hash(y) % (2 * CatStride) = 0}}
          \* the holed shapes, on every second template and scale
-         \cup  {x \in ct : x.a > NBase /\ Hash(x) % 2 = 0}
+         \cup  {x \in ct : x.a > NBase /\ Hash(x) % (2 * LightStride) = 0}
          \* lists of three (A, B, A'): A' is A again (g3 = 1) or another box in the same bins (g3 = 2), B overlaps them;
          \* three distinct values, so the cells of A under B must end up with the value of A' -- painter's order
          \cup  {[x EXCEPT !.g2 = j, !.g3 = q] : x \in {y \in bx : Hash(y) % TripleStride = 1 /\ MarksCells(y)}, j \in 1..2, q \in 1..2}
